@@ -145,8 +145,14 @@ func (c02) Run(c *Ctx, i int) CaseResult {
 		all := map[string]interface{}{"k": []string{"u1", "u2", "u3"}[r.Intn(3)], "s": r.Intn(2) == 0, "t": r.Intn(2) == 0, "u": r.Intn(2) == 0}
 		in.Vars = map[string]interface{}{}
 		for k, v := range all {
-			if r.Intn(2) == 0 {
+			switch r.Intn(5) {
+			case 0, 1:
 				in.Vars[k] = v
+			case 2:
+				// given, as null: not the same as not given (a null overrides the default): it must reach the services
+				if k != "k" {
+					in.Vars[k] = nil
+				}
 			}
 		}
 		in.OpName, in.OddIDs = "", false
